@@ -247,4 +247,4 @@ def text_item_progress(ctx, k):
     """items of text containers are parsed from a non-empty slice cut by the separator scan (parsed_length > 0 is
     checked in _parse_string_array before an item class is applied)"""
     lay = ctx.canon.layout(k, 'parse')
-    return any(p.kind == 'text' for p in lay.result.parsers) or not lay.result.parsers
+    return any(p.kind == 'text' for p in lay.result.parsers)
